@@ -41,6 +41,7 @@ DeltaFacts(o) ==
   \cup (IF c.n = 0 /\ ~c.cached /\ o.called THEN {"C05:from-zero-no-cache"} ELSE {})
   \cup (IF c.n > 0 /\ ~o.pctErr THEN {"C13:percent"} ELSE {})
   \cup (IF o.scale > 1 THEN {"C05:large-magnitude"} ELSE {})
+  \cup (IF o.scale >= 1048576 /\ c.rm >= 84 THEN {"C05:memory-total-beyond-int64-headroom"} ELSE {})
 
 TotViol(o, ec, em, what) ==
   (IF \E i \in 1..Len(o.totals) : o.totals[i] # o.totals[1] THEN {<<"C13", what \o "-order-dependent">>} ELSE {})
